@@ -181,7 +181,7 @@ func c03(c *Ctx) {
 			if len(outer) != 3 {
 				od = append(od, sprintf("%d outer fields, expected 3", len(outer)))
 			} else {
-				if outer[0].width != "8" || !strings.Contains(outer[0].label, "bytes.Equal") {
+				if outer[0].width != "8" || !(strings.Contains(outer[0].label, "bytes.Equal") || strings.Contains(outer[0].label, "bytes.Compare")) {
 					od = append(od, "field 0 must be the 8-byte key id compared with bytes.Equal: "+outer[0].String())
 				}
 				if outer[1].width != "16" || !strings.Contains(outer[1].label, "messages.Encrypted.MsgKey") {
